@@ -84,6 +84,25 @@ fn gen_with(tier: &str, seed: u64, heavy_scripts: bool, emit: &mut dyn FnMut(Str
         chunks.push(cur);
         emit(dmx_case(0, &scripts, &chunks));
     }
+    if heavy_scripts {
+        // one invocation queueing hundreds of requests (more than any fixed-size queue a table could need): inserts then
+        // removes, many requests for one PID, alternating insert / remove
+        for v in 0..(if big { 24 } else { 6 }) {
+            let pool = pid_pool(&mut rng, 3);
+            let n = *rng.pick(&[255usize, 256, 257, 300, 513]);
+            let mut acts: Vec<String> = vec![];
+            match v % 3 {
+                0 => { for k in 0..n { acts.push(format!("i{}.R", 0x400 + k)); } for k in 0..n { if k % 2 == 0 { acts.push(format!("r{}", 0x400 + k)); } } }
+                1 => { for k in 0..n { acts.push(format!("i{}.{}", pool[1], if k % 2 == 0 { "R" } else { "P" })); } }
+                _ => { for k in 0..n { if k % 2 == 0 { acts.push(format!("i{}.R", pool[1])); } else { acts.push(format!("r{}", pool[1])); } } acts.push(format!("i{}.P", pool[2])); }
+            }
+            let scripts = format!("{}={}", pool[0], acts.join(","));
+            let mut pk: Vec<Vec<u8>> = vec![rand_packet(&mut rng, pool[0], 0, 0)];
+            for k in [0x400u16, 0x401, 0x402, 0x400 + n as u16 - 1, pool[1], pool[2], pool[0]] { pk.push(rand_packet(&mut rng, k, 0, 0)); }
+            let chunks: Vec<Vec<u8>> = vec![pk.concat()];
+            emit(dmx_case(0, &scripts, &chunks));
+        }
+    }
     if big && !heavy_scripts {
         // one packet on each of the 8192 PIDs, ascending and descending
         for order in 0..2 { let mut all = vec![]; for i in 1..0x2000u16 { let pid = if order == 0 { i } else { 0x2000 - i }; all.extend(rand_packet(&mut rng, pid, 0, 0)); } emit(dmx_case(0, "", &[all])); }
